@@ -509,7 +509,7 @@ func (ng *nestGen) tag(body string) string {
 	if ng.g.Chance(12) {
 		rr = "-%}"
 	}
-	sp := func() string { return ng.g.Pick([]string{"", " ", " ", "\n", "  "}) }
+	sp := func() string { return ng.g.Pick([]string{"", " ", " ", "\n", "  ", "\f", "\r\n", "\t"}) } // every byte RE2's \s matches: [\t\n\f\r ]
 	return l + sp() + body + sp() + rr
 }
 
